@@ -21,7 +21,7 @@ ASSUMPTIONS = ["snapshots compare observable state (values, dtypes, labels, inde
 
 def plan(tier, seed):
     cases = espace.plan_shards(tier, parsers=True)
-    pol = espace.plan_shards(tier, parsers=True, bases=["frame", "column", "column_str"], extra={"backend": "polars"}, quick_pairs=())
+    pol = espace.plan_shards(tier, parsers=True, bases=["frame", "column", "column_str", "frame_parsing"], extra={"backend": "polars"}, quick_pairs=())
     return {"cases": cases + pol, "exhaustive": True, "bounds": dict(espace.BOUNDS_TEXT, tier=tier),
             "rule": "state = distinct (schema, table) pair, validated eagerly and lazily with inplace=False; non-trivial = a "
                     "parsing option is on, or validation failed (the failure paths are where aliasing hides)"}
